@@ -303,6 +303,15 @@ func c19R2(c *Ctx) {
 			}
 			okStore = true
 		})
+		if !okStore {
+			// table form: &colors.F sits in a local table of pointers, and a range
+			// loop over the whole table stores hexToAnsi(*p) back through p, error checked
+			if ok2, why2 := colourViaTable(P, post, hex, fld); ok2 {
+				okStore = true
+			} else if why2 != "" {
+				why = why2
+			}
+		}
 		c.check(okStore, name+"/colour:"+fld.Name(), P.Pos(fld.Pos()), name, "converted by hexToAnsi of the same field, error checked", why)
 	}
 	// hexToAnsi
@@ -774,4 +783,83 @@ func c19R4(c *Ctx) {
 		})
 	}
 	c.info("scalings", n)
+}
+
+// colourViaTable: the address of the colour field travels through a local
+// table (a slice of pointers, or of structs holding one), and a range loop
+// converts every element in place: some store writes result #0 of hexToAnsi(*p)
+// back through the same pointer expression p, with the error checked, inside a
+// range loop, and p can be the address of this field (backward value flow of
+// the pointer).
+func colourViaTable(P *Program, post, hex *ssa.Function, fld *types.Var) (bool, string) {
+	f := c01FlowCached(P)
+	okLoop, why := false, ""
+	eachInstr(post, func(b *ssa.BasicBlock, _ int, in ssa.Instruction) {
+		st, ok := in.(*ssa.Store)
+		if !ok || okLoop {
+			return
+		}
+		ex, ok := st.Val.(*ssa.Extract)
+		if !ok || ex.Index != 0 {
+			return
+		}
+		call, ok := ex.Tuple.(*ssa.Call)
+		if !ok || call.Call.StaticCallee() != hex {
+			return
+		}
+		if _, direct := st.Addr.(*ssa.FieldAddr); direct {
+			return
+		}
+		// may the pointer be &colors.F ?
+		reaches := false
+		f.Backward(f.val(st.Addr), func(n int) bool {
+			k := f.keys[n]
+			if k.kind == nValue {
+				if fa, ok := k.v.(*ssa.FieldAddr); ok && fieldOf(fa) == fld {
+					reaches = true
+					return true
+				}
+			}
+			return false
+		})
+		if !reaches {
+			return
+		}
+		arg, ok := call.Call.Args[0].(*ssa.UnOp)
+		if !ok || path(arg.X) != path(st.Addr) {
+			why = "a colour in the table is computed from another element"
+			return
+		}
+		// inside a range loop (over the table)
+		inRange := false
+		for _, blk := range post.Blocks {
+			if !blk.Dominates(b) {
+				continue
+			}
+			for _, hi := range blk.Instrs {
+				if ph, ok := hi.(*ssa.Phi); ok && ph.Comment == "rangeindex" {
+					inRange = true
+				}
+			}
+		}
+		if !inRange {
+			why = "the table of colours is not walked by a range loop"
+			return
+		}
+		e, _ := errorResult(call)
+		checked := false
+		if e != nil {
+			for _, r := range refs(e) {
+				if cmp, ok := r.(*ssa.BinOp); ok && nonNilBranchFails(cmp) {
+					checked = true
+				}
+			}
+		}
+		if !checked {
+			why = "a malformed colour in the table does not make postprocess fail"
+			return
+		}
+		okLoop = true
+	})
+	return okLoop, why
 }
